@@ -573,7 +573,7 @@ def search(run: Run):
 def main():
     run = Run(
         PID,
-        ["RV.Props.C01", "RV.Bridge.Time", "RV.Bridge.Agents", "RV.Bridge.Thrust", "RV.Bridge.EventsQuery"],
+        ["RV.Props.C01", "RV.Bridge.Time", "RV.Bridge.Agents", "RV.Bridge.Thrust", "RV.Bridge.EventsQuery", "RV.Bridge.EventsQueryProps"],
         ["RV/Model/Events.lean", "RV/Model/Time.lean"],
         "Lean 4 theorems (window tiling and exactly-one-step delivery over any strictly increasing Julian-date map; induction over steps for "
         "the agent's impulse queue) + bit-exact correspondence of the real stepForward windows + differential delivery runs against a real "
